@@ -55,8 +55,34 @@ func (o *overlap) pairs() []string {
 
 // ingestPrivate ingests a table into the private "z" range, or excises part of it.
 func (w *World) ingestPrivate(r *rand.Rand, n int) error {
+	// The private range is written by this goroutine only, one operation after
+	// the other, so its contents after every operation are known exactly: any
+	// view must show the range as it was after SOME operation (zCheck).
+	w.zmu.Lock()
+	if len(w.zStates) == 0 {
+		w.zStates = append(w.zStates, map[string]string{})
+	}
+	cur := w.zStates[len(w.zStates)-1]
+	next := make(map[string]string, len(cur)+3)
+	for k, v := range cur {
+		next[k] = v
+	}
+	w.zmu.Unlock()
+	publish := func() {
+		w.zmu.Lock()
+		w.zStates = append(w.zStates, next)
+		w.zmu.Unlock()
+	}
 	if r.IntN(4) == 0 {
-		return w.DB.Excise(context.Background(), pebble.KeyRange{Start: []byte("za"), End: []byte("zm")})
+		for k := range next {
+			if k >= "za" && k < "zm" {
+				delete(next, k)
+			}
+		}
+		publish()
+		err := w.DB.Excise(context.Background(), pebble.KeyRange{Start: []byte("za"), End: []byte("zm")})
+		w.zDone.Store(int64(len(w.zStates) - 1))
+		return err
 	}
 	path := fmt.Sprintf("ext/z-%d.sst", n)
 	_ = w.FS.MkdirAll("ext", 0o755)
@@ -68,6 +94,7 @@ func (w *World) ingestPrivate(r *rand.Rand, n int) error {
 	base := r.IntN(20)
 	for j := 0; j < 3; j++ {
 		k := fmt.Sprintf("z%c%c", 'a'+byte((base+j)/26%26), 'a'+byte((base+j)%26))
+		next[k] = fmt.Sprintf("ing%d", n)
 		if err := wr.Set([]byte(k), []byte(fmt.Sprintf("ing%d", n))); err != nil {
 			wr.Close()
 			return err
@@ -76,7 +103,60 @@ func (w *World) ingestPrivate(r *rand.Rand, n int) error {
 	if err := wr.Close(); err != nil {
 		return err
 	}
-	return w.DB.Ingest(context.Background(), []string{path})
+	publish()
+	err = w.DB.Ingest(context.Background(), []string{path})
+	w.zDone.Store(int64(len(w.zStates) - 1))
+	return err
+}
+
+// zCheck compares the private range of one view with the known sequence of
+// its states: the view must equal the state after some operation j with
+// lower <= j <= (operations issued by the end of the scan).
+func (w *World) zCheck(what string, pts map[string]string, lower int64) {
+	w.zmu.Lock()
+	states := w.zStates
+	w.zmu.Unlock()
+	if len(states) == 0 {
+		return
+	}
+	got := map[string]string{}
+	for k, v := range pts {
+		if len(k) == 3 && k[0] == 'z' {
+			got[k] = v
+		}
+	}
+	if lower < 0 || lower >= int64(len(states)) {
+		lower = 0
+	}
+	for j := int(lower); j < len(states); j++ {
+		st := states[j]
+		if len(st) != len(got) {
+			continue
+		}
+		same := true
+		for k, v := range st {
+			if got[k] != v {
+				same = false
+				break
+			}
+		}
+		if same {
+			w.count("private-range-views-matched")
+			return
+		}
+	}
+	var ks []string
+	for k, v := range got {
+		ks = append(ks, k+"="+v)
+	}
+	sort.Strings(ks)
+	var last []string
+	for k, v := range states[len(states)-1] {
+		last = append(last, k+"="+v)
+	}
+	sort.Strings(last)
+	w.fail("private-range-state-unknown", "%s: the private range [z,..) shows %v, which is its state after NO operation j in [%d,%d] of the single goroutine that ingests into it and excises [za,zm) (state after the last operation: %v): excised keys reappeared, an ingest was applied partially, or writes were lost",
+		what, ks, lower, len(states)-1, last)
 }
 
 // checkpointAndScan takes a checkpoint, opens it and checks the group-token
